@@ -1,19 +1,19 @@
-SPECIFICATION SpecC11
+SPECIFICATION SpecC11KindDeviations
 CONSTANTS
-  Validators = {1, 2}
+  Validators = {1}
   Externals = {3}
   Relays = {1, 2}
   Nodes = {1, 2}
-  DocIds = {2, 3}
+  DocIds = {2}
   FailKinds = {"error"}
   Ops = {}
   MaxInFlight = 0
   AuctionImpl = "intended"
   Resolution = "locked"
-  MaxRounds = 5
-  ErrKinds <- ErrKindsOne
+  MaxRounds = 2
+  ErrKinds <- ErrKindsPlain
 INVARIANTS TypeOKC11 RegistrationExact SignedOverContent ReuseOnlyIfUnchanged FailureIsolated PreparationExact PreparationIsolated ControlledDropped ForwardedUnchanged ForwardedAll F2ControlledDropped F2ForwardedUnchanged F2ForwardedAll KeepsLastGood
 CONSTRAINT RoundBound
 CONSTRAINT NoLane2
-CONSTRAINT CoarseFanOut
+
 CHECK_DEADLOCK FALSE
